@@ -76,12 +76,26 @@ def run(ctx):
         base = [ctx.rng.choice(["minimize", "maximize"]) for _ in range(nobj)]
         sc["confs"] = flip_confs(base)
         scenarios.append(sc)
+    # discrete learning curves: integer values (pairwise distinct), where "equal to the interpolated percentile" happens
+    coarse = [(s, p) for s in ("random", "tpe") for p in ("median", "pct25", "pct75", "patient_median", "sha", "hyperband")]
+    n_coarse = 0
+    for rep in range(2 if ctx.quick else 12):
+        for s, p in coarse:
+            sc = c09.make_scenario(ctx.rng, f"mc{n_coarse}", s, p, 1, ctx.rng.choice([12, 14, 16]), exact=True)
+            sc["prog"]["coarse"] = True
+            sc["prog"]["fail_mod"] = 0
+            sc["confs"] = flip_confs([ctx.rng.choice(["minimize", "maximize"])])
+            scenarios.append(sc)
+            n_coarse += 1
+    ctx.notes["coarse_scenarios"] = n_coarse
     c09.execute(scenarios)
     ctx.notes["run_wall_s"] = round(time.time() - t0, 1)
     judge(ctx, scenarios, "mirrored runs")
     ctx.assumptions += [
         "objective and reported values are multiples of 1/4096 of magnitude < 64 and pairwise distinct (a term in the "
         "trial number), so negation, quartile interpolation and short sums are exact; thresholds are mirrored exactly",
+        "plus 'discrete learning curve' scenarios: integer values (pairwise distinct), where a reported value regularly equals "
+        "the interpolated percentile of the other trials",
         "percentile pruners at 25/50/75 only (other percentiles make numpy's interpolation weights inexact)",
         "WilcoxonPruner: instance-style programs (6-10 steps with the same ids in every trial, scores multiples of 1/65536, "
         "objective = median/max/min/last/mean of the reports), p_threshold in {0.1, 0.2, 0.3} (never equal to an exact "
